@@ -125,8 +125,9 @@ pub fn search_c01(rng: &mut Rng, thorough: bool) -> SearchResult {
 
 pub fn search_c06(_rng: &mut Rng, thorough: bool) -> SearchResult {
     let mut r = SearchResult::default();
-    r.rule = "every row of the frozen reference table (generated once from the pinned release v0.6.2; every face x quintant x resolution 0..29 with boundary/random curve positions, plus uniform points): lookups whose reference answer contained the point and was stable under a 2e-9 degree perturbation must return the same ID; reported centres and corners must be the same physical points within 1e-9 degrees (rows within 0.1 degree of a pole: 2e-6 degrees, because the reference release itself lost up to 1e-8 rad there, fixed defect D12). non-trivial = distinct table rows".into();
-    let g = std::fs::read_to_string("/verif/golden/golden_v062.txt").expect("golden table");
+    r.rule = "every row of the two frozen reference tables (generated once from the pinned release v0.6.2: every face x quintant x resolution 0..29 with boundary/random curve positions, uniform points; and 36000 points at face seams incl. edge midpoints, dodecahedron vertices, face centres, symmetry lines): lookups whose reference answer contained the point and was stable under a 2e-9 degree perturbation must return the same ID; reported centres and corners must be the same physical points within 1e-9 degrees (rows within 0.1 degree of a pole: 2e-6 degrees, because the reference release itself lost up to 1e-8 rad there, fixed defect D12). non-trivial = distinct table rows".into();
+    let g = std::fs::read_to_string("/verif/golden/golden_v062.txt").expect("golden table")
+        + &std::fs::read_to_string("/verif/golden/golden_v062_seams.txt").expect("golden table 2");
     let f = |h: &str| f64::from_bits(u64::from_str_radix(h, 16).unwrap());
     let step = if thorough { 1 } else { 1 };
     for (k, l) in g.lines().filter(|l| !l.starts_with('#')).enumerate() {
